@@ -1,5 +1,6 @@
 import Gp.Lemmas.PoolAsmU
 import Gp.Lemmas.PoolReasmU
+import Gp.Lemmas.PoolReasmX
 /-
   C12 — Assemblers sharing one stream pool are safe under every interleaving.
 
@@ -195,6 +196,11 @@ example : ((sys m2Progs).run (sys m2Progs).init m2Sched).log =
     ∧ (((sys m2Progs).run (sys m2Progs).init m2Sched).obj 0).lq = [1]
     ∧ (((sys m2Progs).run (sys m2Progs).init m2Sched).thr 1).done = true := by decide
 
+/-- the hypotheses of `completed_stream_closed` hold in the final state of that run (object 0, stream 0) -/
+example : 0 < ((sys m2Progs).run (sys m2Progs).init m2Sched).nextC
+    ∧ (((sys m2Progs).run (sys m2Progs).init m2Sched).obj 0).stream = some 0
+    ∧ ncomp ((sys m2Progs).run (sys m2Progs).init m2Sched).log 0 ≠ 0 := by decide
+
 /-- … and when the flusher comes first it releases the queued segment and completes the stream itself
     (the RST then finds no connection): the lifecycle theorems are about non-trivial histories. -/
 example : ((sys m2Progs).run (sys m2Progs).init [0, 0, 0, 0, 0, 0, 1, 1, 1, 1, 0, 0]).log =
@@ -368,6 +374,43 @@ theorem flush_remove_counterexample : ¬ kept_stream_completed_once_full := by
       (((sys true cx4Progs).run (sys true cx4Progs).init cx4Sched).skey 1) = none := by decide
   rw [h2] at h1; cases h1
 
+/-- `NoStale` ALONE does not save reassembly: kept_stream_completed_once restricted to executions without
+    stale recycling is still false. -/
+def kept_stream_completed_once_nostale : Prop :=
+  ∀ (progs : Tid → List Op) (s : State), (sys true progs).ReachableR NoStale s → KeptOnce s
+
+/-- A flusher and ONE assembler.  1: SYN 0a, SYN 1a, FINs of 0a/0b, FINs of 1a/1b, SYN 0a;  0: FlushCloseOlderThan. -/
+def cx5Progs : Tid → List Op
+  | 0 => [.flushold 9 9]
+  | 1 => [.pkt ⟨0, false⟩ .syn, .pkt ⟨1, false⟩ .syn, .pkt ⟨0, false⟩ .fin, .pkt ⟨0, true⟩ .fin,
+          .pkt ⟨1, false⟩ .fin, .pkt ⟨1, true⟩ .fin, .pkt ⟨0, false⟩ .syn]
+  | _ => []
+
+/-- 1 creates pair 0's connection (object 0); 0 snapshots the pool and stops before `conn.mu.Lock()`; 1 creates
+    pair 1's connection (a FRESH object 1), closes pair 0 (free = [0]), closes pair 1 (free = [1, 0]) and
+    re-creates pair 0's connection from object 1 — nobody points to object 1, no step is a stale recycling;
+    0 now visits object 0: both halves closed and idle ⇒ `remove(conn)` after the Unlock ⇒ `conns[0a]` exists
+    (it is object 1's entry) ⇒ deleted; object 0 is pushed on `free` a second time.  Stream 2 is lost. -/
+def cx5Sched : List Tid := [1, 1, 1, 1, 0, 1, 1, 1, 1, 1, 1, 1, 1, 1, 1, 1, 1, 1, 1, 1, 1, 1, 1, 1, 1, 1, 1, 1, 1, 1, 1, 1, 0, 0]
+
+theorem foreign_remove_nostale_counterexample : ¬ kept_stream_completed_once_nostale := by
+  intro h
+  have hidle : ∀ t, 2 ≤ t → cx5Progs t = [] := by
+    intro t ht
+    match t, ht with
+    | t + 2, _ => rfl
+  have hr : (sys true cx5Progs).ReachableR NoStale (Sys.runG (sys true cx5Progs) (noStaleB 2) (sys true cx5Progs).init cx5Sched) :=
+    Sys.reachableR_runG_inv (sys true cx5Progs) (noStaleB 2) (Idle 2)
+      (fun _ _ _ hI hs => idle_step hI hs) (fun s t hI hb => noStale_of_noStaleB 2 s t hI hb)
+      .init (idle_init 2 cx5Progs hidle) cx5Sched
+  obtain ⟨c, h1, _⟩ := (h cx5Progs _ hr 2 (by decide)).2 (by decide)
+  have h2 : (Sys.runG (sys true cx5Progs) (noStaleB 2) (sys true cx5Progs).init cx5Sched).conns.get
+      ((Sys.runG (sys true cx5Progs) (noStaleB 2) (sys true cx5Progs).init cx5Sched).skey 2) = none := by decide
+  rw [h2] at h1; cases h1
+
+/-- … and the free list then holds object 0 twice. -/
+example : (Sys.runG (sys true cx5Progs) (noStaleB 2) (sys true cx5Progs).init cx5Sched).free = [0, 0] := by decide
+
 /-- kept_stream_completed_once_partial (fixed pool): along every execution with neither a stale recycling
     nor a foreign remove (`Clean`: the precise negations of the two defects) every kept stream is completed
     at most once and, until then, attached to an open connection stored under its key. -/
@@ -420,6 +463,11 @@ def accProgs : Tid → List Op
 
 example : ((sys true accProgs).run (sys true accProgs).init [0, 0, 0, 0, 1, 0, 0, 0, 1]).log =
     [.accept 0 1 0, .complete 0 0, .deliv 0 0 0 ⟨0, false⟩ 1, .accept 0 0 0, .new 0 ⟨0, false⟩ 0] := by decide
+
+/-- the hypotheses of `completed_stream_closed` hold in the final state of that run -/
+example : 0 < ((sys true accProgs).run (sys true accProgs).init [0, 0, 0, 0, 1, 0, 0, 0, 1]).nextC
+    ∧ (((sys true accProgs).run (sys true accProgs).init [0, 0, 0, 0, 1, 0, 0, 0, 1]).obj 0).stream = some 0
+    ∧ ncomp ((sys true accProgs).run (sys true accProgs).init [0, 0, 0, 0, 1, 0, 0, 0, 1]).log 0 ≠ 0 := by decide
 
 end Reasm
 
